@@ -15,9 +15,16 @@
    chk_spec  : for templates with condition / content / replace / attributes / omit-tag: the REAL program
                is read back as a forest (parse_forest) and BOTH the tree-walking specification
                (spec_forest) and the data instance of the VM (expand1), with the REAL results of
-               Context.evaluate(expr, originalAtts) as evaluator, give the REAL expansion. *)
+               Context.evaluate(expr, originalAtts) as evaluator, give the REAL expansion;
+   chk_spec_full : the same for all six TAL statements (define and repeat included): the environment is
+               the number of Context operations performed so far (pushLocals, popLocals, setLocal,
+               addGlobal; addRepeat = 3 of them, removeRepeat + popLocals = 2), the evaluator is the table of
+               REAL evaluate results keyed by that number, the expression and the original attributes —
+               so specification, data VM and real interpreter must also agree on the ORDER of all
+               context operations. *)
 From Coq Require Import String.
-From PG Require Import Lib.Str Model.TALES Model.TALProg Model.TALVM Model.TALCompile Model.TALESEval Model.TALOut Model.TALSpec.
+From PG Require Import Lib.Str Model.TALES Model.TALProg Model.TALVM Model.TALCompile Model.TALESEval Model.TALOut Model.TALSpec
+                       Model.TALSpecFull.
 Local Open Scope N_scope.
 
 Definition chk_wf (c : program * (symtab * macrotab)) : bool :=
@@ -166,11 +173,46 @@ Definition chk_spec (c : (program * (symtab * macrotab)) * (list ((str * list (s
   let dflt := fun v : cval => fst (snd (snd v)) in
   let truth := fun v : cval => snd (snd (snd v)) in
   let text := fun v : cval => fst v in
-  match parse_forest (S (List.length p)) t 0 p with
+  match TALSpec.parse_forest (S (List.length p)) t 0 p with
   | Some (f, []) =>
-      str_eqb (spec_forest cval ev nothing dflt truth text f) real &&
+      str_eqb (TALSpec.spec_forest cval ev nothing dflt truth text f) real &&
       match expand1 cval ev nothing dflt truth text p t (4 * List.length p + 8) (mkCtx (mkSc [] [] [] []) []) with
-      | Done mf => str_eqb (d_out (dat _ mf)) real
+      | Done mf => str_eqb (TALSpec.d_out (dat _ mf)) real
+      | _ => false
+      end
+  | _ => false
+  end.
+
+(* ---- all six TAL statements ---- *)
+(* value: (text, (is None, (== default, (truth, len())))) *)
+Definition cvalL := (str * (bool * (bool * (bool * option nat))))%type.
+Definition cvL_miss : cvalL := (lit "<<evaluation the real code never made>>"%string, (false, (false, (true, None)))).
+Fixpoint evL_lookup (t : list ((nat * (str * list (str * str))) * cvalL)) (ver : nat) (e : str) (orig : list (str * str)) : cvalL :=
+  match t with
+  | [] => cvL_miss
+  | ((n, (q, o)), v) :: r => if Nat.eqb n ver && str_eqb q e && atts_eqb o orig then v else evL_lookup r ver e orig
+  end.
+
+(* ((program, (symtab, macros)), (evaluations, (real output, real number of context operations))) *)
+Definition chk_spec_full (c : (program * (symtab * macrotab)) *
+                              (list ((nat * (str * list (str * str))) * cvalL) * (str * nat))) : bool :=
+  let '((p, (t, _)), (tbl, (real, nops))) := c in
+  let ev := fun (ver : nat) e orig => evL_lookup tbl ver e orig in
+  let bump := fun (k : nat) (ver : nat) => (ver + k)%nat in
+  let nothing := fun v : cvalL => fst (snd v) in
+  let dflt := fun v : cvalL => fst (snd (snd v)) in
+  let truth := fun v : cvalL => fst (snd (snd (snd v))) in
+  let vlen := fun v : cvalL => snd (snd (snd (snd v))) in
+  let text := fun v : cvalL => fst v in
+  match TALSpecFull.parse_forest (S (List.length p)) t 0 p with
+  | Some (f, []) =>
+      let sp := TALSpecFull.spec_forest cvalL nat ev (bump 1%nat) (bump 1%nat) (fun v _ _ => bump 1%nat v) (fun v _ _ => bump 1%nat v)
+                  (fun v _ _ => bump 3%nat v) (fun v _ => bump 1%nat v) (fun v _ => bump 2%nat v) nothing dflt truth text vlen 0%nat f in
+      str_eqb (fst sp) real && Nat.eqb (snd sp) nops &&
+      match expand_tal cvalL nat ev (bump 1%nat) (bump 1%nat) (fun v _ _ => bump 1%nat v) (fun v _ _ => bump 1%nat v)
+                       (fun v _ _ => bump 3%nat v) (fun v _ => bump 1%nat v) (fun v _ => bump 2%nat v) nothing dflt truth text vlen
+                       p t ((nops + 2) * (List.length p + 2))%nat (mkCtx (mkSc [] [] [] []) []) 0%nat with
+      | Done mf => str_eqb (TALSpecFull.d_out (dat _ mf)) real && Nat.eqb (TALSpecFull.d_env (dat _ mf)) nops
       | _ => false
       end
   | _ => false
